@@ -262,6 +262,23 @@ pub fn pcopiedad(case: &Case, eff: &mut Eff, k: impl ParK) -> R {
     r
 }
 
+/// `par().filter(keep everything, logged as stage 3).copied()` / `.cloned()`: the adaptors after another transformation
+pub fn pfltcopied(case: &Case, eff: &mut Eff, k: impl ParK) -> R {
+    *eff = elems_of(&case.input);
+    let v: Vec<usize> = (1..case.input.len() + 1).collect();
+    let r = k.call(v.par().filter(|x: &&usize| crate::closures::pre_stage(**x as u64)).copied());
+    drop(v);
+    r
+}
+
+pub fn pfltcloned(case: &Case, eff: &mut Eff, k: impl ParK) -> R {
+    *eff = cloned_elems(&case.input);
+    let v = make_cps(&case.input);
+    let r = k.call(v.par().filter(|x: &&Cp| crate::closures::pre_stage(x.id())).cloned());
+    drop(v);
+    r
+}
+
 pub fn pclonedit(case: &Case, eff: &mut Eff, k: impl ParK) -> R {
     *eff = cloned_elems(&case.input);
     let v = make_cps(&case.input);
